@@ -156,7 +156,7 @@ def coords_of(obj):
 
 def wrap_form(form, x):
     if form == "nd32":
-        return x
+        return x.copy()   # never the generator's own array: the mutation oracles compare against it
     if form == "nd64":
         return x.astype(np.float64)
     if x.ndim == 2:
@@ -257,10 +257,50 @@ def gen_mask(rng, n):
         m = np.zeros(n, dtype=bool)
         m[int(rng.integers(n))] = True
         return m
+    if r < 0.80 and n >= 3:
+        # a contiguous or regularly strided range (what a slice selects)
+        a = int(rng.integers(0, n - 1)); b = int(rng.integers(a + 1, n + 1)); st = int(rng.choice([1, 1, 2, 3]))
+        m = np.zeros(n, dtype=bool)
+        m[a:b:st] = True
+        return m
     m = rng.random(n) < rng.choice([0.3, 0.6, 0.9])
     if not m.any():
         m[int(rng.integers(n))] = True
     return m
+
+
+def mask_arg(rng, ctx, mask):
+    """The same selection in another representation: the documented boolean mask, or (where the selected positions allow
+    it) the equivalent index array or slice, which NumPy answers with a *view* of the caller's coordinates instead of a
+    copy.  Only forms that select the same atoms in the same order are produced."""
+    if mask is None:
+        return None
+    pos = np.flatnonzero(mask)
+    forms = ["bool"] * 3 + ["index"]
+    if len(pos) == 1 or (len(pos) > 1 and len(set(np.diff(pos).tolist())) == 1):
+        forms += ["slice"] * 4
+    f = str(rng.choice(forms))
+    ctx.op("maskform_" + f)
+    if f == "index":
+        return pos
+    if f == "slice":
+        step = int(pos[1] - pos[0]) if len(pos) > 1 else 1
+        return slice(int(pos[0]), int(pos[-1]) + 1, step)
+    return mask
+
+
+def superimpose_masked(ctx, Fo, Mo, mask, marg):
+    """superimpose with the mask in the chosen representation; a representation other than the documented boolean mask
+    that is refused with an exception is not judged (the call is repeated with the boolean mask)."""
+    if mask is None:
+        return struc.superimpose(Fo, Mo)
+    if marg is mask:
+        return struc.superimpose(Fo, Mo, atom_mask=mask)
+    try:
+        return struc.superimpose(Fo, Mo, atom_mask=marg)
+    except (TypeError, IndexError, ValueError) as e:
+        ctx.op("maskform_refused")
+        return struc.superimpose(Fo, Mo, atom_mask=mask)
 
 
 TRIGGER_ELONGATED = "near_collinear_set_float32_covariance"
@@ -412,7 +452,8 @@ def case_fit(rng, ctx, rigid=False):
     ctx.op("mask_" + ("none" if mask is None else ("single" if mask.sum() == 1 else ("all" if mask.all() else "some"))))
     ctx.op("fixed_" + ffix)
     ctx.op("mobile_" + fmob)
-    fitted, tr = struc.superimpose(Fo, Mo) if mask is None else struc.superimpose(Fo, Mo, atom_mask=mask)
+    marg = mask_arg(rng, ctx, mask)
+    fitted, tr = superimpose_masked(ctx, Fo, Mo, mask, marg)
     check_same_type(ctx, fitted, Mo, "superimpose")
     ctx.oracle("input_not_mutated")
     if not np.array_equal(coords_of(Fo), fixed.astype(coords_of(Fo).dtype)) or not np.array_equal(coords_of(Mo), mobile.astype(coords_of(Mo).dtype)):
@@ -534,8 +575,12 @@ def case_stack(rng, ctx):
     Fo, Mo = wrap_form(ffix, fx), wrap_form(fmob, mb)
     ctx.log("superimpose", combo, kind, ffix, fmob, fx.tolist() if fx.size <= 60 else ["seeded", list(fx.shape)],
             mb.tolist() if mb.size <= 60 else ["seeded", list(mb.shape)], None if mask is None else mask.tolist())
-    fitted, tr = struc.superimpose(Fo, Mo) if mask is None else struc.superimpose(Fo, Mo, atom_mask=mask)
+    marg = mask_arg(rng, ctx, mask)
+    fitted, tr = superimpose_masked(ctx, Fo, Mo, mask, marg)
     check_same_type(ctx, fitted, Mo, "superimpose")
+    ctx.oracle("input_not_mutated")
+    if not np.array_equal(coords_of(Fo), fx.astype(coords_of(Fo).dtype)) or not np.array_equal(coords_of(Mo), mb.astype(coords_of(Mo).dtype)):
+        ctx.fail("input_not_mutated", "superimpose changed its input coordinates (stack)")
     ctx.oracle("transformation_shapes")
     # a single fixed model gives one target translation for all models: (1,3) broadcasts, the statement does not fix the depth
     if tr.rotation.shape != (m, 3, 3) or tr.center_translation.shape != (m, 3) or tr.target_translation.shape not in ((m, 3), (1, 3)):
@@ -549,7 +594,7 @@ def case_stack(rng, ctx):
         judge_fit(ctx, rng, fmodels[i], mb[i], Y[i], tr.rotation[i], tr.center_translation[i],
                   tr.target_translation[i if len(tr.target_translation) > 1 else 0], mask, tol, perturb=(i == 0))
         # model i must be the same as fitting model i alone
-        alone, tra = struc.superimpose(fmodels[i], mb[i]) if mask is None else struc.superimpose(fmodels[i], mb[i], atom_mask=mask)
+        alone, tra = superimpose_masked(ctx, fmodels[i], mb[i], mask, marg)
         sel = slice(None) if mask is None else mask
         r1 = G.rmsd(fmodels[i][sel], Y[i][sel])
         r2 = G.rmsd(fmodels[i][sel], alone[sel])
